@@ -2,6 +2,8 @@ import LinfaSpec.Proofs.NN
 import Mathlib.Algebra.Order.Group.Abs
 import Mathlib.Algebra.Order.Ring.Abs
 import Mathlib.Analysis.Real.Sqrt
+import Mathlib.Analysis.MeanInequalities
+import Mathlib.Analysis.SpecialFunctions.Pow.Real
 import Mathlib.Tactic.Linarith
 
 /-!
@@ -10,7 +12,9 @@ import Mathlib.Tactic.Linarith
 `mL1`, `mLinf` (any ordered field) and `mL2` (over ℝ) on the points of a fixed dimension `d` (the batch
 rows and a query that passed the dimension guard) are non-negative and satisfy the triangle
 inequality; the proofs run over the very `foldl` loops of `Model/NN.lean` (generalised over the
-accumulator).  The `Lawful` instances themselves are stated in `Props/C07.lean`.
+accumulator).  `mLp p` (over ℝ, `powf` = the real power) for every exponent `p ≥ 1`: Minkowski by the same
+induction, the two-term step from Mathlib's `Real.Lp_add_le_of_nonneg` over `Fin 2`.  The `Lawful`
+instances themselves are stated in `Props/C07.lean`.
 -/
 namespace LinfaSpec.NN
 open LinfaSpec
@@ -190,5 +194,115 @@ theorem l2_triangle_aux (a b c : List ℝ) (hab : a.length = b.length) (hbc : b.
           linarith
 
 end l2
+
+section lp
+
+/-- `x.powf(p)` on the reals: the real power function -/
+noncomputable instance realPowF : PowF ℝ := ⟨fun x y => x ^ y⟩
+
+theorem powf_real (x y : ℝ) : PowF.powf x y = x ^ y := rfl
+
+/-- Minkowski for two terms (the induction step of the triangle inequality of `LpDist`), from
+Mathlib's `Real.Lp_add_le_of_nonneg` over `Fin 2` -/
+theorem minkowski2p {p : ℝ} (hp : 1 ≤ p) (P R u v : ℝ) (hP : 0 ≤ P) (hR : 0 ≤ R) (hu : 0 ≤ u)
+    (hv : 0 ≤ v) :
+    ((P + R) ^ p + (u + v) ^ p) ^ (1 / p) ≤ (P ^ p + u ^ p) ^ (1 / p) + (R ^ p + v ^ p) ^ (1 / p) := by
+  have h := Real.Lp_add_le_of_nonneg (f := ![P, u]) (g := ![R, v]) (Finset.univ : Finset (Fin 2)) hp
+    (by intro i _; fin_cases i <;> simp [hP, hu]) (by intro i _; fin_cases i <;> simp [hR, hv])
+  simpa [Fin.sum_univ_two] using h
+
+theorem lp_fold_nonneg (l : List ℝ) (hl : ∀ x ∈ l, 0 ≤ x) (i : ℝ) (hi : 0 ≤ i) :
+    0 ≤ l.foldl (· + ·) i := by
+  induction l generalizing i with
+  | nil => simpa
+  | cons x xs ih =>
+    simp only [List.foldl_cons]
+    exact ih (fun y hy => hl y (List.mem_cons_of_mem _ hy)) _
+      (add_nonneg hi (hl x List.mem_cons_self))
+
+theorem lp_triangle_aux {p : ℝ} (hp : 1 ≤ p) (a b c : List ℝ) (hab : a.length = b.length)
+    (hbc : b.length = c.length) (i1 i2 i3 : ℝ) (h1 : 0 ≤ i1) (h2 : 0 ≤ i2) (h3 : 0 ≤ i3)
+    (hi : i1 ^ (1 / p) ≤ i2 ^ (1 / p) + i3 ^ (1 / p)) :
+    ((List.zipWith (fun x y => |x - y| ^ p) a c).foldl (· + ·) i1) ^ (1 / p) ≤
+      ((List.zipWith (fun x y => |x - y| ^ p) a b).foldl (· + ·) i2) ^ (1 / p) +
+      ((List.zipWith (fun x y => |x - y| ^ p) b c).foldl (· + ·) i3) ^ (1 / p) := by
+  have hp0 : 0 < p := lt_of_lt_of_le zero_lt_one hp
+  have hinv : 0 ≤ 1 / p := by positivity
+  induction a generalizing b c i1 i2 i3 with
+  | nil =>
+    cases b with
+    | nil => cases c with
+      | nil => simpa using hi
+      | cons _ _ => simp at hbc
+    | cons _ _ => simp at hab
+  | cons x xs ih =>
+    cases b with
+    | nil => simp at hab
+    | cons y ys =>
+      cases c with
+      | nil => simp at hbc
+      | cons z zs =>
+        simp only [List.zipWith_cons_cons, List.foldl_cons]
+        have hxz : 0 ≤ |x - z| ^ p := Real.rpow_nonneg (abs_nonneg _) _
+        have hxy : 0 ≤ |x - y| ^ p := Real.rpow_nonneg (abs_nonneg _) _
+        have hyz : 0 ≤ |y - z| ^ p := Real.rpow_nonneg (abs_nonneg _) _
+        apply ih ys zs (by simpa using hab) (by simpa using hbc) _ _ _ (add_nonneg h1 hxz)
+          (add_nonneg h2 hxy) (add_nonneg h3 hyz)
+        -- two-term Minkowski with P = i2^(1/p), R = i3^(1/p), u = |x - y|, v = |y - z|
+        have hP := Real.rpow_nonneg h2 (1 / p)
+        have hR := Real.rpow_nonneg h3 (1 / p)
+        have back : ∀ t : ℝ, 0 ≤ t → (t ^ (1 / p)) ^ p = t := by
+          intro t ht
+          rw [← Real.rpow_mul ht, one_div_mul_cancel hp0.ne', Real.rpow_one]
+        have hm := minkowski2p hp (i2 ^ (1 / p)) (i3 ^ (1 / p)) |x - y| |y - z| hP hR
+          (abs_nonneg _) (abs_nonneg _)
+        rw [back i2 h2, back i3 h3] at hm
+        refine le_trans (Real.rpow_le_rpow (add_nonneg h1 hxz) ?_ hinv) hm
+        have e1 : i1 ≤ (i2 ^ (1 / p) + i3 ^ (1 / p)) ^ p := by
+          have := Real.rpow_le_rpow (Real.rpow_nonneg h1 _) hi hp0.le
+          rwa [back i1 h1] at this
+        have e2 : |x - z| ^ p ≤ (|x - y| + |y - z|) ^ p :=
+          Real.rpow_le_rpow (abs_nonneg _) (abs_sub_le x y z) hp0.le
+        linarith
+
+/-- the model's `lp` over ℝ written with `|·|` and the real power -/
+theorem lp_real (p : ℝ) (a b : List ℝ) :
+    lp p a b = ((List.zipWith (fun x y => |x - y| ^ p) a b).foldl (· + ·) 0) ^ (1 / p) := by
+  unfold lp
+  simp only [powf_real, absS_eq_abs]
+
+theorem lp_nonneg (p : ℝ) (a b : List ℝ) : 0 ≤ lp p a b := by
+  rw [lp_real]
+  exact Real.rpow_nonneg (lp_fold_nonneg _ (by
+    intro x hx
+    obtain ⟨i, _, rfl⟩ := List.getElem_of_mem hx
+    simp only [List.getElem_zipWith]
+    exact Real.rpow_nonneg (abs_nonneg _) _) 0 le_rfl) _
+
+theorem lp_triangle {p : ℝ} (hp : 1 ≤ p) (a b c : List ℝ) (hab : a.length = b.length)
+    (hbc : b.length = c.length) : lp p a c ≤ lp p a b + lp p b c := by
+  rw [lp_real, lp_real, lp_real]
+  have hp0 : 0 < p := lt_of_lt_of_le zero_lt_one hp
+  exact lp_triangle_aux hp a b c hab hbc 0 0 0 le_rfl le_rfl le_rfl
+    (by rw [Real.zero_rpow (one_div_ne_zero hp0.ne')]; simp)
+
+theorem lp_symm (p : ℝ) (a b : List ℝ) : lp p a b = lp p b a := by
+  rw [lp_real, lp_real]
+  congr 2
+  exact List.zipWith_comm_of_comm (f := fun x y : ℝ => |x - y| ^ p)
+    (fun x y => by simp only [abs_sub_comm])
+
+theorem lp_self {p : ℝ} (hp : 0 < p) (a : List ℝ) : lp p a a = 0 := by
+  rw [lp_real]
+  have : (List.zipWith (fun x y => |x - y| ^ p) a a).foldl (· + ·) 0 = 0 := by
+    induction a with
+    | nil => rfl
+    | cons x xs ih =>
+      simp only [List.zipWith_cons_cons, List.foldl_cons, sub_self, abs_zero,
+        Real.zero_rpow hp.ne', add_zero]
+      exact ih
+  rw [this, Real.zero_rpow (one_div_ne_zero hp.ne')]
+
+end lp
 
 end LinfaSpec.NN
